@@ -25,6 +25,7 @@ var registry = map[string]func(*chk.Run){
 	"C12": checks.C12,
 	"C14": checks.C14,
 	"C15": checks.C15,
+	"C16": checks.C16,
 	"C17": checks.C17,
 	"C18": checks.C18,
 	"C19": checks.C19,
